@@ -33,7 +33,7 @@ def fp16_to_float(float16):
 
     if e == 0:
         if f == 0:
-            return int(s << 31)
+            return struct.unpack('f', struct.pack('I', int(s << 31)))[0]
         else:
             while not (f & 0x00000400):
                 f <<= 1
@@ -43,9 +43,9 @@ def fp16_to_float(float16):
             # print(s,e,f)
     elif e == 31:
         if f == 0:
-            return int((s << 31) | 0x7f800000)
+            return struct.unpack('f', struct.pack('I', int((s << 31) | 0x7f800000)))[0]
         else:
-            return int((s << 31) | 0x7f800000 | (f << 13))
+            return struct.unpack('f', struct.pack('I', int((s << 31) | 0x7f800000 | (f << 13))))[0]
 
     e += 127 - 15
     f <<= 13
